@@ -3,7 +3,7 @@
    variable with name x at the index of x; `declared names e` = every variable of e is declared. *)
 From Coq Require Import List NArith Bool. Import ListNotations.
 From BddVerif Require Import Model.Bdd Model.Apply Model.Ops Model.Expr Proofs.Sem Proofs.Canon Proofs.ApplyTop
-  Proofs.ExprParse Proofs.ExprShow Proofs.ExprEval Model.Alias Proofs.Alias.
+  Proofs.ExprParse Proofs.ExprShow Proofs.ExprEval Model.Alias Proofs.Alias Proofs.ExprTable Generated.ExprTables Proofs.ExprSource.
 Open Scope N_scope.
 
 (* eval_expression returns the (canonical) diagram of the function obtained by evaluating the tree pointwise *)
@@ -93,3 +93,9 @@ Print Assumptions C15_eval_expr_string_panic_iff.
 Theorem C15_eval_expr_string_show : forall names e, safe_names e = true -> eval_expr_string names (show e) = eval_expr names e.
 Proof. exact eval_expr_string_show. Qed.
 Print Assumptions C15_eval_expr_string_show.
+
+(* ---- translator obligation: the rules of the bdd! macro (operator symbol -> method, with and without a variable set) are
+   re-read from src/_macro_bdd.rs by tools/gen_expr.py on every run of this check and are the model's symbol table *)
+Theorem C15_source_macro : src_macro = model_macro /\ forall v s m, In (v, s, m) src_macro -> macro_binary s = method_op m.
+Proof. exact (conj src_macro_eq source_macro). Qed.
+Print Assumptions C15_source_macro.
